@@ -131,6 +131,28 @@ func (m *omap) iter(ex *executor) iter {
 	}
 	if ex != nil && ex.cfg.AdversarialMapOrder && len(live) >= 2 {
 		live = ex.permute(live)
+	} else if ex != nil && ex.mapOrder > 0 && len(live) >= 2 {
+		// harness-selected iteration order: the k-th permutation (k-th rotation/reversal for large maps)
+		n := len(live)
+		var perm []int
+		if n <= 4 {
+			ps := allPerms(n)
+			perm = ps[ex.mapOrder%len(ps)]
+		} else {
+			perm = make([]int, n)
+			for i := range perm {
+				if ex.mapOrder%2 == 1 {
+					perm[i] = (n - 1 - i + ex.mapOrder/2) % n
+				} else {
+					perm[i] = (i + ex.mapOrder/2) % n
+				}
+			}
+		}
+		out := make([]*mentry, n)
+		for i, j := range perm {
+			out[i] = live[j]
+		}
+		live = out
 	}
 	return &omapIter{entries: live}
 }
